@@ -93,7 +93,10 @@ def correspondence(chk, drv):
         for q in queries(rng, times):
             if q < 0:
                 continue
-            ct.add(f'lk_tstrict {f2b(q)} {fl(times)}', str(helpers.find_index_for_time_point(hit, q, True)))
+            # the allowed deviation belongs to the nearest-time variant only: the strict look-up must ignore it
+            sdev = rng.choice([None, 1.0, 0.0, 0.01])
+            ct.add(f'lk_tstrict {f2b(q)} {fl(times)}', str(helpers.find_index_for_time_point(hit, q, True) if sdev is None
+                                                          else helpers.find_index_for_time_point(hit, q, True, sdev)))
             dev = rng.choice([1.0, 0.0, 0.3, 100.0])
             try:
                 ans = str(helpers.find_index_for_time_point(hit, q, False, dev))
